@@ -19,6 +19,10 @@ func checkC11(e *Env) {
 	e.R.Explanation = "Decided (structural necessary conditions of C11): (a) the head ladder of encodeTypedUint, evaluated at every threshold of the code and of RFC 8949 (both sides of 24, 2^8, 2^16, 2^32, plus 0 and 2^64-1): shortest form with strict '<', first byte = type|ai, follow bytes big-endian, 1+nfollow bytes written; agreement with the decoder's and addinfo.go's tables; (b) EncodeMap: header count is len(mes); the emitted slice is a copy of mes of that length, sorted by sort.Slice whose comparator is bytes.Compare(KeyBytes(i), KeyBytes(j)) < 0 on the encoded keys; in every iteration the adjacent-duplicate test (first entry, or not bytes.Equal(previous key, key)) precedes emission and fails with ErrDuplicatedKey; key buffer then value buffer are copied with their errors honoured; (c) EncodeTextString is gated by utf8.Valid; (d) EncodeInt encodes negatives under major type 1 with uint64(-n)-1 and non-negatives under type 0; the typed wrappers pass their own major type; encodeBytes writes the head for len(bs) and then bs; (e) every destination write of the package propagates its error (E3). " +
 		"Not decided: decoding by an independent decoder, the arithmetic identity uint64(-n)-1 == -1-n for MinInt64."
 	e.R.RuleText = "E7 table extraction by folding the CFG at interval representatives of the discriminator; E2 gates with operand provenance; for-all loop rule; E3"
+	// GROWVIEW: growable views over one base are disjoint (shared rule, growalias.go)
+	growableViewsDisjoint(e, 0, "internal/cbor.")
+	// ERRUSE: no error of a data-fallible module call is lost on the way (shared rule, erruse.go)
+	moduleErrorsConsumed(e, erruseEntries, 6, "internal/cbor.")
 	lowest := encoderHeadTable(e)
 	dec := decoderHeadTableQuiet(e)
 	class, length, limit := addInfoTablesQuiet(e)
